@@ -515,17 +515,20 @@ impl Bundle for Padding {
 pub mod verif {
     pub use crate::bit_writer::BitWriter;
 
-    /// A reconstruction header that contains only the given APPn marker records
-    /// (`ty`, `length`) - exactly the values `AppMarker::parse` can produce are meaningful:
-    /// `ty` in 0..=7 and `length` in 1..=65536.
-    pub fn header_with_app_markers(app_markers: Vec<(u32, u32)>) -> crate::JpegBitstreamHeader {
-        crate::JpegBitstreamHeader {
+    /// A reconstruction header that contains only `count` APPn marker records, parsed from
+    /// `bitstream` with the real `AppMarker::parse` (so exactly the records the parser accepts).
+    pub fn header_with_app_markers(
+        bitstream: &mut jxl_bitstream::Bitstream,
+        count: usize,
+    ) -> Result<crate::JpegBitstreamHeader, jxl_bitstream::Error> {
+        use jxl_oxide_common::Bundle;
+        let app_markers = (0..count)
+            .map(|_| crate::AppMarker::parse(bitstream, ()))
+            .collect::<Result<Vec<_>, _>>()?;
+        Ok(crate::JpegBitstreamHeader {
             is_gray: false,
             markers: Vec::new(),
-            app_markers: app_markers
-                .into_iter()
-                .map(|(ty, length)| crate::AppMarker { ty, length })
-                .collect(),
+            app_markers,
             com_lengths: Vec::new(),
             quant_tables: Vec::new(),
             components: Vec::new(),
@@ -536,7 +539,7 @@ pub mod verif {
             intermarker_lengths: Vec::new(),
             tail_data_length: 0,
             padding_bits: None,
-        }
+        })
     }
 
     /// Builds the canonical code of a DHT-style table (`counts[len]` codes of length `len`,
